@@ -156,3 +156,142 @@ pub fn drive_inserttxn(cx: &mut Ctx, hist: &str) {
         }
     }
 }
+
+// ---------------------------------------------------------------------------------------
+// removal transaction (spec/RemoveTxn.tla)
+// ---------------------------------------------------------------------------------------
+fn removetxn_case<K: Kern<D>, const D: usize>(cx: &mut Ctx, script: &Value, base_pts: &[Vec<i64>], inner: &[i64]) {
+    let cfg = &script["cfg"];
+    let choices: Vec<String> = script["choices"].as_array().unwrap().iter().map(|x| x.as_str().unwrap().to_string()).collect();
+    let g = GUARANTEES[1];
+    let fast = choices.first().is_some_and(|c| c != "k1no");
+    // base: Delaunay triangulation of the base points (built with the default policies)
+    let input = cx.inputs(base_pts, false);
+    let vs: Vec<_> = input.iter().map(|v| v.vertex::<D>(0)).collect();
+    let Ok(mut dt) = Dt::<K, D>::with_topology_guarantee(&K::default(), &vs, g) else { return };
+    dt.set_delaunay_repair_policy(DelaunayRepairPolicy::Never);
+    // the vertex to remove: for the fast path one whose star is a simplex (inserted strictly inside a cell with
+    // repair off), else a base vertex with a larger star
+    let target_uuid = if fast {
+        use delaunay::triangulation::flips::BistellarFlips;
+        let v = VIn::lattice(cx.fresh_uuid(), inner.to_vec(), Some(9));
+        let vert = v.vertex::<D>(0);
+        let Ok(delaunay::core::algorithms::locate::LocateResult::InsideCell(ck)) =
+            delaunay::core::algorithms::locate::locate(dt.tds(), &K::default(), vert.point(), None)
+        else {
+            return;
+        };
+        if dt.flip_k1_insert(ck, vert).is_err() {
+            return;
+        }
+        v.uuid
+    } else {
+        // the vertex with the largest star
+        let mut best = None;
+        for (vk, v) in dt.vertices() {
+            let deg = dt.cells().filter(|(_, c)| c.vertices().contains(&vk)).count();
+            if best.is_none_or(|(d, _)| deg > d) {
+                best = Some((deg, v.uuid()));
+            }
+        }
+        let Some((deg, u)) = best else { return };
+        if deg <= D + 1 {
+            return;
+        }
+        u
+    };
+    let Some((tk, tv)) = find_vertex(&dt, target_uuid) else { return };
+    let star = dt.cells().filter(|(_, c)| c.vertices().contains(&tk)).count();
+    if fast != (star == D + 1) {
+        return;
+    }
+    dt.set_delaunay_repair_policy(if cfg["repair"] == "Never" { DelaunayRepairPolicy::Never } else { DelaunayRepairPolicy::EveryInsertion });
+    fp::arm("verif.none", 1);
+    let mut it = choices.iter();
+    match it.next().map(String::as_str) {
+        Some("k1wire") => fp::arm_also("flip.after_insert_cells", 1, false),
+        Some("k1late") => fp::arm_also("flip.after_remove_cells", 1, false),
+        _ => {}
+    }
+    if !fast {
+        for site in ["tri.remove.after_fill", "tri.remove.after_remove_cells", "tri.remove.after_remove_vertex"] {
+            match it.next().map(String::as_str) {
+                Some("fail") => {
+                    fp::arm_also(site, 1, false);
+                    break;
+                }
+                Some("ok") => {}
+                _ => break,
+            }
+        }
+    }
+    if choices.last().is_some_and(|c| c == "fail") && choices.len() >= 2 && cfg["repair"] != "Never" {
+        // the last choice of a script that reaches the repair is the repair's
+        let reaches_repair = choices.iter().take(choices.len() - 1).all(|c| c == "ok" || c.starts_with("k1"));
+        if reaches_repair && (fast || choices.len() == 6) {
+            fp::arm_also("repair.postcondition", 1, true);
+        }
+    }
+    let before = cx.tr.project(&dt);
+    fp::start_log();
+    let r = cx.tr.guard("remove_vertex (transaction script)", || match dt.remove_vertex(&tv) {
+        Ok(_) => "Ok".to_string(),
+        Err(_) => "Err".to_string(),
+    });
+    let log = fp::take_log();
+    let fired = fp::disarm_all();
+    // the call's own sites: at most the three sites of the inverse k=1 flip, then the removal sites; later flip
+    // sites belong to the repair
+    let mut sites: Vec<&str> = Vec::new();
+    let mut i = 0;
+    while i < log.len() && i < 3 && log[i].starts_with("flip.") {
+        sites.push(log[i]);
+        i += 1;
+    }
+    while i < log.len() && log[i].starts_with("tri.remove.") {
+        sites.push(log[i]);
+        i += 1;
+    }
+    match r {
+        Guarded::Done(kind) => {
+            let after = cx.tr.project(&dt);
+            let changed = before["verts"] != after["verts"] || before["cells"] != after["cells"];
+            let has = find_vertex(&dt, target_uuid).is_some();
+            cx.tr.emit("RTxn", 0, json!({"D": D, "kernel": K::NAME, "script": script, "star": star}),
+                json!({"kind": kind, "sites": sites, "fired": fired.iter().take(4).collect::<Vec<_>>(), "has": has, "changed": changed,
+                       "repair_fired": fired.iter().any(|s| s.starts_with("repair."))}), None, false);
+        }
+        Guarded::Panicked(msg) => {
+            cx.tr.emit("RTxn", 0, json!({"D": D, "kernel": K::NAME, "script": script, "star": star}), json!({"kind": "Panic", "msg": msg}), None, true);
+        }
+    }
+}
+
+pub fn drive_removetxn(cx: &mut Ctx, hist: &str) {
+    let text = std::fs::read_to_string(hist).expect("cannot read scripts");
+    for line in text.lines() {
+        if line.trim().is_empty() {
+            continue;
+        }
+        let script: Value = serde_json::from_str(line).expect("bad script line");
+        let choices: Vec<&str> = script["choices"].as_array().unwrap().iter().map(|x| x.as_str().unwrap()).collect();
+        // cells must remain (the zero-cell removal is KF-C06-1); a failing Level-3 validation cannot be forced
+        if !script["cfg"]["cells"].as_bool().unwrap() || (choices.first() == Some(&"k1no") && choices.get(4) == Some(&"fail")) {
+            continue;
+        }
+        for d in 2..=3usize {
+            for k in 0..2usize {
+                if !cx.mine() {
+                    continue;
+                }
+                cx.tr.tag = format!("C03 removetxn D={d} {:?}", choices);
+                match (d, k) {
+                    (2, 0) => removetxn_case::<FastKernel<f64>, 2>(cx, &script, &GP2.iter().map(|p| p.to_vec()).collect::<Vec<_>>(), &[4, 3]),
+                    (2, _) => removetxn_case::<RobustKernel<f64>, 2>(cx, &script, &GP2.iter().map(|p| p.to_vec()).collect::<Vec<_>>(), &[4, 3]),
+                    (_, 0) => removetxn_case::<FastKernel<f64>, 3>(cx, &script, &GP3.iter().map(|p| p.to_vec()).collect::<Vec<_>>(), &[3, 3, 2]),
+                    (_, _) => removetxn_case::<RobustKernel<f64>, 3>(cx, &script, &GP3.iter().map(|p| p.to_vec()).collect::<Vec<_>>(), &[3, 3, 2]),
+                }
+            }
+        }
+    }
+}
